@@ -5,6 +5,7 @@ import (
 	"errors"
 	"fmt"
 	"io"
+	"math"
 	"time"
 
 	"github.com/gorilla/websocket"
@@ -78,6 +79,10 @@ type Sent struct {
 	Level       int
 	Prepared    bool
 	Bad         bool
+	// OptionalEmpty: a failed WriteJSON; the wire may carry an empty text message for it or nothing.
+	OptionalEmpty bool
+	// OnWire: (OptionalEmpty) the call did put bytes on the wire.
+	OnWire bool
 	// Reported: every call of the message returned nil (the API reported it sent).
 	Reported bool
 	// Started: the message's first call succeeded.
@@ -90,6 +95,9 @@ type WTrace struct {
 	Sent  []Sent
 	Base  time.Time
 }
+
+// unencodableJSON marks a WriteJSON step whose value cannot be encoded (NaN).
+const unencodableJSON = "NaN"
 
 // chunkSrc is an io.Reader that is deliberately not an io.WriterTo.
 type chunkSrc struct {
@@ -250,6 +258,19 @@ func (x *wexec) step(si int, s WStep) {
 		x.call(si, 0, "WriteMessage", false, m, func() error { return c.WriteMessage(s.MT, data) })
 		x.endSent(m)
 	case "json":
+		if s.JSON == unencodableJSON {
+			// a value encoding/json refuses: WriteJSON must return the error, the
+			// message is over (no buffer kept); what reaches the wire for it is an
+			// empty text message at most
+			x.implicitClosed()
+			m := x.newSent(websocket.TextMessage, []byte{}, si, false)
+			x.tw.Sent[m].OptionalEmpty = true
+			x.call(si, 0, "WriteJSON", true, m, func() error { return c.WriteJSON(math.NaN()) })
+			x.endSent(m)
+			last := x.tw.Calls[len(x.tw.Calls)-1]
+			x.tw.Sent[m].OnWire = last.WroteAfter > last.WroteBefore
+			return
+		}
 		var v interface{}
 		if err := json.Unmarshal([]byte(s.JSON), &v); err != nil {
 			panic("harness: bad JSON in case: " + err.Error())
@@ -334,6 +355,19 @@ func (x *wexec) writer(si int, s WStep, bad bool) {
 	for pi, p := range s.Parts {
 		if p.API == "peerclose" || p.API == "peerviolation" || p.API == "peerbig" {
 			x.peer(si, pi+1, p.API, p.MT)
+			continue
+		}
+		if p.API == "enablecomp" {
+			// takes effect for subsequent messages only; the open one keeps the
+			// framing it was started with
+			c.EnableWriteCompression(p.MT != 0)
+			x.compOn = p.MT != 0
+			continue
+		}
+		if p.API == "level" {
+			if c.SetCompressionLevel(p.MT) == nil {
+				x.level = p.MT
+			}
 			continue
 		}
 		if p.API == "control" {
@@ -518,6 +552,15 @@ func genParts(t *rapid.T, n, w int, allowCtl bool, apis []string) []WPart {
 			parts = append(parts, WPart{API: "control", MT: rapid.SampledFrom([]int{websocket.PingMessage, websocket.PongMessage}).Draw(t, "ctlmt"), Data: genCtlPayload(t, "ctlp")})
 			continue
 		}
+		if allowCtl && rapid.IntRange(0, 9).Draw(t, "togglepart") == 0 {
+			// a compression setting changed while the message is open
+			if rapid.Bool().Draw(t, "toggle_kind") {
+				parts = append(parts, WPart{API: "enablecomp", MT: rapid.IntRange(0, 1).Draw(t, "toggle_on")})
+			} else {
+				parts = append(parts, WPart{API: "level", MT: rapid.IntRange(-2, 9).Draw(t, "toggle_level")})
+			}
+			continue
+		}
 		var l int
 		switch rapid.IntRange(0, 4).Draw(t, "plen_c") {
 		case 0:
@@ -557,6 +600,17 @@ type WGenOpts struct {
 // genWriteProgram draws a write program for a connection with write buffer w.
 func genWriteProgram(t *rapid.T, w int, o WGenOpts) []WStep {
 	steps := rapid.SliceOfN(rapid.Custom(func(t *rapid.T) WStep { return genWStep(t, w, o) }), 1, o.MaxSteps).Draw(t, "steps")
+	for i := 0; i < len(steps); i++ {
+		if steps[i].Op == "json" && steps[i].JSON == unencodableJSON && i > 0 && steps[i-1].Op == "writer" {
+			steps[i-1].Implicit = false // keep the wire bytes of this call attributable to it alone
+		}
+		if i+1 < len(steps) && steps[i].Op == "json" && steps[i].JSON == unencodableJSON {
+			n := &steps[i+1]
+			if (n.Op == "msg" || n.Op == "writer" || n.Op == "prepared") && n.MT == websocket.TextMessage && n.Data.Len == 0 {
+				n.MT = websocket.BinaryMessage
+			}
+		}
+	}
 	// A writer left open must be followed by a call that opens the next
 	// message (which closes it implicitly); otherwise close it explicitly.
 	for i := range steps {
@@ -565,8 +619,13 @@ func genWriteProgram(t *rapid.T, w int, o WGenOpts) []WStep {
 				steps[i].Implicit = false
 				continue
 			}
-			n := steps[i+1]
-			ok := n.Op == "json" || (n.Op == "writer") || (n.Op == "msg")
+			// the next step that touches the wire must be an opener (which closes
+			// this writer); pure setting changes may come in between
+			j := i + 1
+			for j < len(steps) && (steps[j].Op == "enablecomp" || steps[j].Op == "level" || steps[j].Op == "deadline") {
+				j++
+			}
+			ok := j < len(steps) && (steps[j].Op == "json" || steps[j].Op == "writer" || steps[j].Op == "msg")
 			if !ok {
 				steps[i].Implicit = false
 			}
@@ -608,6 +667,9 @@ func genWStep(t *rapid.T, w int, o WGenOpts) WStep {
 	case k < 70:
 		js, _ := json.Marshal(genJSONValue(t, 2))
 		s = WStep{Op: "json", JSON: string(js)}
+		if o.AllowBad && rapid.IntRange(0, 7).Draw(t, "unencodable") == 0 {
+			s.JSON = unencodableJSON
+		}
 	case k < 78:
 		mt := rapid.SampledFrom([]int{websocket.TextMessage, websocket.BinaryMessage, websocket.BinaryMessage, websocket.PingMessage, websocket.PongMessage}).Draw(t, "mt")
 		if mt >= 8 {
